@@ -47,6 +47,7 @@ func (c *Check) dotTaint() {
 		eng.deadFields[hook] = true
 		c.ok("C18-R1", key, "", hook+" is an unset hook", "no store to this field in any non-test function of the module, so the value is always the zero value")
 	}
+	c.Assumptions = append(c.Assumptions, "filepath.Base applied to already escaped text cuts only at '/', which escapeForDot neither produces nor consumes (holds for '/'-separated platforms)")
 	c.Assumptions = append(c.Assumptions, "DotConfig.FormatValue (value formatting callback) returns text free of DOT metacharacters (numbers and unit names)")
 
 	nSinks := 0
@@ -80,6 +81,7 @@ func (c *Check) dotTaint() {
 					t = t.add(eng.eval(a, f, nil, map[ssa.Value]bool{}))
 				}
 				key := fmt.Sprintf("sink:%s:%s", fnName(f), sinkLabel(call))
+				delete(t, sanMarker)
 				if len(t) == 0 {
 					c.ok("C18-R1", key, p.relFile(call.Pos()), "DOT write in "+fnName(f), "every string operand is a constant, a number, an inert formatter result or has passed through escapeForDot")
 				} else {
